@@ -10,7 +10,7 @@ position).  Not decided: actual virtual times.
 import ast
 
 from ..model import self_attr, unparse, walk_body_shallow
-from .util import call_name, call_recv, calls_in, need, node_assign_value, node_writes_attr, norm, where
+from .util import at, expand, const_value, fold, path_values, call_name, call_recv, calls_in, need, node_assign_value, node_writes_attr, norm, where
 
 TECHNIQUE = "symbolic comparator on the back-off and buffer kernels, guard-fact dominance of limit and policy arms"
 EXPLANATION = (
@@ -81,8 +81,9 @@ def run(ctx):
     k2 = _min_kernel(prog, hce, nd[0].stmt.value, hce.params[3] if len(hce.params) > 3 else "retry_delay")
     c2 = cl2[0][1]
     ok = (k2 is not None and isinstance(k2[0], (int, float)) and k2[0] > 1 and k2[1] == "self.retry_max_delay"
-          and norm(c2.args[0]) == var and len(c2.args) >= 4 and norm(c2.args[2]) == var
-          and norm(c2.args[3]) in ("attempt + 1", "1 + attempt"))
+          and len(c2.args) >= 4 and norm(expand(prog, hce, c2.args[0])) == norm(expand(prog, hce, nd[0].stmt.value))
+          and norm(expand(prog, hce, c2.args[2])) == norm(expand(prog, hce, nd[0].stmt.value))
+          and len(hce.params) > 4 and norm(expand(prog, hce, c2.args[3])) in ("%s + 1" % hce.params[4], "1 + %s" % hce.params[4]))
     r.check(ok, "%s#kernel" % hce.qname, "commit retry delay kernel is not min(delay*F, max) carried to the next attempt "
             "with attempt+1", where(hce, nd[0].stmt), facts=["F=%r cap=%s" % (k2 or (None, None))])
 
@@ -137,7 +138,7 @@ def run(ctx):
     fh = ctx.facts(hfe)
     oor = "failure.check(OffsetOutOfRangeError)".replace("failure", hfe.first_param())
     sets = [n for n in ch.nodes if node_assign_value(n, "_fetch_offset") is not None]
-    ok = len(sets) == 1 and norm(node_assign_value(sets[0], "_fetch_offset")) == "self.auto_offset_reset" and (
+    ok = len(sets) == 1 and norm(at(ctx, hfe, sets[0].id, node_assign_value(sets[0], "_fetch_offset"))) == "self.auto_offset_reset" and (
         oor, True) in fh[sets[0].id] and ("self.auto_offset_reset is None", False) in fh[sets[0].id]
     r.check(ok, "%s#policy-restart" % hfe.qname, "out-of-range with a policy does not restart from the policy position",
             where(hfe, hfe.node), "consumer keeps refetching the invalid offset for ever")
@@ -181,15 +182,24 @@ def buffer_kernel(ctx, r):
     need(exc, "too-small handler missing")
     arm = [cfr.nodes[i] for i in cfr.reach([exc[0].id])]
     mul = [n for n in arm if n.kind == "stmt" and isinstance(n.stmt, ast.AugAssign) and isinstance(n.stmt.op, ast.Mult) and node_writes_attr(n, "buffer_size")]
-    fvar = norm(mul[0].stmt.value) if mul else "factor"
-    facs = [n for n in arm if n.kind == "stmt" and isinstance(n.stmt, ast.Assign) and unparse(n.stmt.targets[0]) == fvar]
-    vals = {}
-    for n in facs:
-        v = _const(prog, hfr, n.stmt.value)
-        vals[v] = n
-    ok = set(vals) == {2, 16} and any(t in ("self.buffer_size <= 2 ** 20", "self.buffer_size <= 1048576") and p
-                                      for t, p in ffr[vals[16].id]) if 16 in vals else False
-    ok = ok and not any("buffer_size" in t for t, p in ffr[vals[2].id]) if ok else False
+    need(mul and isinstance(mul[0].stmt.value, ast.Name), "buffer growth `size *= <factor>` not found")
+    fvar = mul[0].stmt.value.id
+    # the factor as a function of the current size: on every path from the handler to the growth the value assigned
+    # last is 16 exactly on the paths that took `size <= 2**20`, 2 on those that took its negation
+    from ..cfg import cond_atoms
+    found, bad = [], []
+    for conds, val in path_values(cfr, exc[0].id, mul[0].id, fvar):
+        v = const_value(prog, hfr, val) if val is not None else None
+        small = None
+        for t, pol in conds:
+            for text, p in cond_atoms(fold(prog, hfr, t), pol):
+                if text == "self.buffer_size <= 1048576":
+                    small = p
+        found.append(v)
+        if not ((small is True and v == 16) or (small is False and v == 2)):
+            bad.append("factor %s when size <= 2**20 is %s" % (v, small))
+    ok = bool(found) and not bad and {16, 2} <= set(found)
+    vals = sorted(set(str(x) for x in found)) + bad[:2]
     r.check(ok, "%s#factor" % hfr.qname, "growth factor is not 16 while size <= 2**20, else 2 (found %s)" % sorted(
         str(v) for v in vals), where(hfr, exc[0].stmt))
     grows = [n for n in arm if n.stmt is not None and node_writes_attr(n, "buffer_size")]
